@@ -157,6 +157,19 @@ func (c *ctx) micCase(maxFrm int) {
 			c.emit(validateEvent("upF", ph, q, pt.label))
 		}
 	}
+	// the receiver validates in the OTHER direction (same frame, same key material): the direction is bound into the MIC
+	{
+		q := p
+		other := "up"
+		if up {
+			other = "down"
+			q.skey = p.fkey
+		} else {
+			q.fkey = p.skey
+		}
+		ph := valToPhy(cloneM(phyToVal(phy)).(M), false)
+		c.emit(validateEvent(other, ph, q, "crossdir"))
+	}
 	// payload bit
 	b, _ := phy.MarshalBinary()
 	if len(b) > 13 {
@@ -263,6 +276,10 @@ func (c *ctx) methodCase() {
 			v["fport"] = []interface{}{1}
 			v["frm"] = []interface{}{}
 		}
+	}
+	if c.rnd.Intn(10) == 0 { // a frame value the specification excludes: FRMPayload bytes without an FPort
+		v["fport"] = []interface{}{}
+		v["frm"] = c.genRawItem(1 + c.rnd.Intn(40))
 	}
 	for _, name := range []string{"EncryptFRMPayload", "DecryptFRMPayload", "EncryptFOpts", "DecryptFOpts"} {
 		phy := valToPhy(cloneM(v).(M), false)
